@@ -280,11 +280,18 @@ def rfc3339(epoch_ms, off_min=0, frac=False, zulu=False):
     return s + "%s%02d:%02d" % ("+" if off_min >= 0 else "-", abs(off_min) // 60, abs(off_min) % 60)
 
 
-def timify(rng, machine, plans, data, base_epoch_ms=1700000000000):
+LIMIT_SHARE = 0.35      # share of the timed cases whose machine gets a top-level TimeoutSeconds
+
+
+def timify(rng, machine, plans, data, base_epoch_ms=1700000000000, slow=False):
     """Make a generated case exercise the clock (in place): Tasks get `TimeoutSeconds` and their workers reply delays on
     both sides of the deadline (never exactly on it: which of two timers due at the same instant fires first is not
     the model's business) or never answer; other workers get non-default delays; Wait states take all four forms, the
-    timestamps written in assorted offset notations; `States.Timeout` appears in Retry / Catch lists."""
+    timestamps written in assorted offset notations; `States.Timeout` appears in Retry / Catch lists; a quarter of the
+    Tasks with a limit get it through `TimeoutSecondsPath` (integers of either sign, booleans, strings, nothing), some a
+    `HeartbeatSeconds(Path)` (which the engine ignores).
+    `slow`: more of all that (the case is to get an execution time limit, `set_time_limit`, which needs a run that
+    takes time)."""
     when_ms = base_epoch_ms + rng.choice([0, 500, 1000, 2500, 4000])
     if isinstance(data, dict):
         data["when"] = rfc3339(when_ms, rng.choice([0, 0, 330, -210, 60, -1439]), zulu=rng.random() < 0.5)
@@ -295,9 +302,23 @@ def timify(rng, machine, plans, data, base_epoch_ms=1700000000000):
             if k == "Task":
                 fn = st["Resource"].rsplit(":", 1)[1]
                 tmo = None
-                if rng.random() < 0.45:
+                if rng.random() < (0.75 if slow else 0.45):
                     tmo = rng.choice([1, 1, 2, 3])
                     st["TimeoutSeconds"] = tmo
+                    if rng.random() < 0.25:
+                        # TimeoutSecondsPath: applied to the state's raw input; wins over TimeoutSeconds; an integer counts,
+                        # true is 1, anything else 0 (the Task times out at once), a path matching nothing is States.Runtime
+                        pth = rng.choice(["$.n", "$.n", "$.a.b", "$.a.b", "$.flag", "$.b", "$.missing", "$$.Execution.Input.n"])
+                        st["TimeoutSecondsPath"] = pth
+                        if rng.random() < 0.5:
+                            del st["TimeoutSeconds"]
+                        v = data
+                        for seg in (pth[2:].split(".") if pth.startswith("$.") else ["n"]):
+                            v = v.get(seg) if isinstance(v, dict) else None
+                        tmo = v if isinstance(v, int) and not isinstance(v, bool) and v > 0 else tmo
+                    if rng.random() < 0.15:
+                        # HeartbeatSeconds(Path): the engine does not implement them — no heartbeat is expected
+                        st[rng.choice(["HeartbeatSeconds", "HeartbeatSecondsPath"])] = rng.choice([1, "$.n"])
                     for key in ("Retry", "Catch"):
                         if key in st and rng.random() < 0.5:
                             rng.choice(st[key])["ErrorEquals"] = rng.choice([["States.Timeout"], ["States.ALL"], ["States.Timeout", "Other"]])
@@ -314,7 +335,7 @@ def timify(rng, machine, plans, data, base_epoch_ms=1700000000000):
                     out.append(("ok", o[1] if len(o) > 1 else None, d) if o[0] == "ok" else
                                ("err", o[1], o[2] if len(o) > 2 else "m", d))
                 plans[fn] = out
-            elif k == "Wait" and rng.random() < 0.7:
+            elif k == "Wait" and rng.random() < (0.9 if slow else 0.7):
                 for f in ("Seconds", "SecondsPath", "Timestamp", "TimestampPath"):
                     st.pop(f, None)
                 form = rng.choice(["Seconds", "SecondsPath", "Timestamp", "TimestampPath"])
@@ -334,6 +355,21 @@ def timify(rng, machine, plans, data, base_epoch_ms=1700000000000):
                 if key in st:
                     walk(st[key]["States"])
     walk(machine["States"])
+
+
+def set_time_limit(rng, machine, duration_ms):
+    """Give the machine a top-level `TimeoutSeconds` — the execution's time limit — knowing that without one the run
+    takes `duration_ms`: four times out of five a whole number of seconds inside the run (so that the limit runs out in a
+    Wait, in a Task — before, at or after the Task's own limit —, in a Retrier's interval, inside a fan-out; whole
+    seconds are where waits, Task limits and retries end, so ties occur), otherwise beyond its end (never reached).
+    Worker delays stay as they are: a reply due exactly at the execution's deadline makes the run incomparable
+    (`enginerun.time_limit_incomparable`)."""
+    secs = int(duration_ms // 1000)
+    if secs >= 1 and rng.random() < 0.8:
+        machine["TimeoutSeconds"] = rng.randint(1, secs)
+    else:
+        machine["TimeoutSeconds"] = secs + rng.choice([1, 2, 5])
+    return machine["TimeoutSeconds"]
 
 
 def features(machine):
